@@ -8,7 +8,9 @@ PROP = dict(
         "orientations_consistent / orientation_groups_are_components / orientations_consistent_whole_mesh / orientation_search_exact (rnm3 groups, diag3 or=), "
         "majority_minimal_flips / repair_normals_majority_consistent / repair_normals_majority_clean (rnm3), repair_normals_restores (rn3), repair_normals2_restores (rn2), "
         "repair_merges_classes (rep3, rep2), components_partition / hierarchy_partition / hierarchy_nodes_are_components / hierarchy_probe_independent / "
-        "hierarchy_nesting / hierarchy_contains_eq_evenodd (hier3, hier2: parent = deepest exact encloser, ancestors = all enclosers, Contains = exact even-odd of the whole mesh), manifold2_iff / inconsistent_vertices2_eq / in_out_one_iff_clean2 (diag2). "
+        "hierarchy_nesting / hierarchy_contains_eq_evenodd / hierarchy_sweep_order_from_key / hierarchy_nesting_of_sweep_key (hier3, hier2: parent = deepest exact encloser, ancestors = all enclosers, Contains = exact even-odd of the whole mesh; "
+        "the order hypothesis is derived from the sweep key), hierarchy_root_prefilter_sound / bbox_far_corner_prefilter_sound / bbox_max_corner_prefilter_sound_of_nonneg / bbox_max_corner_is_not_the_far_corner "
+        "(a shortcut in front of the root-level containment test must never reject an encloser: sound with the far bounding-box corner, with Max() only for an axis without negative component - so the expected hier3 answer is the unpruned one), manifold2_iff / inconsistent_vertices2_eq / in_out_one_iff_clean2 (diag2). "
         "The driver prints what the DEFINITIONS give (edge multiplicities, naive closures, exact rational even-odd ray casting, Surface's proved "
         "deciders) and flags any disagreement between a faithful model and its definition (MODELDIFF), so a difference with the real output is a failing input."
     ),
@@ -23,7 +25,11 @@ PROP = dict(
         "connected part of the parent's cells with a larger inset: a thin U in the material of a thick U) and slot children (fresh polyominoes on a finer grid "
         "inside one cell), depth up to 5, several siblings per level, bounding-box centres in notches (counted: poly:nodes-with-bbox-centre-outside); in 3-D as "
         "prisms with nested z-ranges built directly on the compressed coordinate grid or with ProfileMesh; query points in material cells and notches of every "
-        "node, all off-grid; 24 fixed cases box > thick U/C > thin U/C > small shapes in two arms (2-D and 3-D); 2-D: nested polygons, circles, figure-eights, polylines with reversed/duplicated/removed/degenerate segments; "
+        "node, all off-grid; 24 fixed cases box > thick U/C > thin U/C > small shapes in two arms (2-D and 3-D); every hierarchy scene (2-D and 3-D) is replaced by its image under an "
+        "axis-aligned affine map - signed permutation of the axes, power-of-two scale per axis, shift on the 1/8 grid: identity 1/4, signed permutation 1/8, NEEDLE 3/8 (one axis stretched by 2^3..2^6, the others "
+        "scaled by 2^-1..2^-3, the long axis cycling x,y,z), slab 1/8, independent scales 1/8 - with the query points mapped along, so that inner components start anywhere relative to the corners of their "
+        "enclosers' bounding boxes along the sweep axis (counted: hier3:bbox-nested-pairs-inner-starts-beyond-max-corner-of-outer, ...-beyond-second-furthest-corner..., hier3-xform:*); fixed: the 12 demo nests as "
+        "needles along x/y/z under 12 signed permutations and 24 corner needles (a needle along each axis with two voids in opposite corners of its bounding box, all 8 corner pairs); 2-D: nested polygons, circles, figure-eights, polylines with reversed/duplicated/removed/degenerate segments; "
         "plus a fixed list of edge cases; distinct = distinct operation lines"
     ),
     trusted=[
@@ -31,8 +37,9 @@ PROP = dict(
         "face pointers as list positions; Repair's hashToClass map as 'the live class holding the hash' (no stale entries: every hash of a merged class is re-pointed)",
         "oracles: Solid.Contains / ColliderSolid ray parity are parameters of the models (C07 covers colliders); the harness compares them against exact "
         "rational even-odd ray casting in Lean on every rn3/rn2/hier3/hier2 case",
-        "the sweep-order hypothesis of hierarchy_nesting (a component is swept after every component enclosing it) is the geometric argument in the code's "
-        "comment (min of a fixed linear functional); it is an assumption of the theorem and is exercised, not proved",
+        "the sweep-order hypothesis of hierarchy_nesting (a component is swept after every component enclosing it) is derived (hierarchy_sweep_order_from_key) from: vertices "
+        "visited by non-decreasing key, and an encloser has a vertex with a smaller key than every vertex of the enclosed component; that last, geometric, fact (enclosed => strictly inside the "
+        "convex hull of the encloser's vertices; hull_point_not_before_all is its linear half) is an assumption, checked by the driver on every hier3 case (MODELDIFF:sweep-key)",
         "partial: Surface.FanConnected => no singular vertex is proved, the converse is only cross-checked by the "
         "driver on every edge-balanced case; 2-D hierarchy tracing (traceLoop) modelled and checked by correspondence, partition theorem proved for 3-D only",
     ],
@@ -51,12 +58,14 @@ PROP = dict(
         "RepairNormals restores exactly what the even-odd oracle reports; Repair merges exactly the equivalence closure of 'share a grid hash' and maps to a "
         "representative inside the class; the hierarchy's FullMesh is a permutation of the input for every oracle, its nodes are the vertex-connected components; "
         "the hierarchy depends only on how the probes classify whole components (hierarchy_probe_independent); with a laminar, sweep-compatible containment oracle, "
-        "ancestor <-> encloses and Contains = parity of containing components; 2-D Manifold/InconsistentVertices "
+        "ancestor <-> encloses and Contains = parity of containing components; the sweep compatibility follows from sorting by a key under which every encloser starts first; "
+        "a cheap test in front of the root-level containment call is harmless iff it never rejects an encloser - true for the bounding-box corner furthest along the axis, for Max() only "
+        "when the axis has no negative component (2-D yes, 3-D no); 2-D Manifold/InconsistentVertices "
         "<-> Surface.InOutOne; 2-D RepairNormals restores what its oracle reports. Tie: the real diagnostics, repairs and hierarchies on damaged meshes are diffed against the definitions evaluated in Lean "
         "(exact rational even-odd), with the faithful models run alongside."
     ),
     level_note=(
-        "Proved about the models in lean/M3d/Model/MeshDiag.lean; models tied to /repo by correspondence (11 kinds, 3-D and 2-D). Trusted: Lean kernel, "
+        "Proved about the models in lean/M3d/Model/MeshDiag.lean and MeshDiagSweep.lean; models tied to /repo by correspondence (11 kinds, 3-D and 2-D). Trusted: Lean kernel, "
         "propext/Classical.choice/Quot.sound, Go harness + Lean driver, the abstractions listed under trusted. One defect found and fixed (5660fd7: "
         "SingularVertices never joined coincident triangles)."
     ),
